@@ -69,6 +69,11 @@ CLAIMS = {
          "Every value below 2^22 (quick) / 2^30 (thorough) and every byte string of length <=2 / <=3 is enumerated against an independent model of RFC 9000 section 16; boundaries up to 2^62-1, truncations, declared lengths around and far beyond the remaining input (with guard bytes) are generated with rapid. Exploration is the right level: the domain is small and regular enough that enumeration plus boundary generation leaves little room.",
          "DESIGN.md section 4 C19", ""),
 }
+# the driver's table of rapid properties re-run under the native fuzzer
+import re as _re
+_drv = open(os.path.join(V, "check")).read()
+PROPFUZZ = json.loads("{" + _re.search(r"PROPFUZZ = \{(.*?)\n\}", _drv, _re.S).group(1).rstrip().rstrip(",") + "}")
+PROPFUZZ_SECONDS = int(_re.search(r"PROPFUZZ_SECONDS = (\d+)", _drv).group(1))
 NOT_YET = "check not built yet in this round (planned, see DESIGN.md section 4)"
 
 checks, na = [], []
@@ -76,6 +81,9 @@ for p in props:
     pid = p["id"]
     if pid in CLAIMS:
         tech, text, ref, note = CLAIMS[pid]
+        if PROPFUZZ.get(pid):
+            tech += "; thorough tier: the same rapid properties driven by the native coverage-guided fuzzer (rt.FuzzProp)"
+            text += " In the thorough tier %d of these rapid properties are additionally run under `go test -fuzz` (the fuzzer's bytes are the stream rapid draws from; %d s each, seed corpus of pseudo-random streams), with the same oracles and failure signatures." % (len(PROPFUZZ[pid]), PROPFUZZ_SECONDS)
         checks.append({
             "property_id": pid,
             "quick_cmd": "./check %s --tier quick" % pid,
